@@ -4,6 +4,7 @@ import (
 	"fmt"
 	"strconv"
 	"strings"
+	"unicode"
 )
 
 type TokenType byte
@@ -407,6 +408,9 @@ func isFloat(val string) bool {
 }
 
 func buildToken(curr string, pos int) *Token {
+	// White space the splitter does not know (form feed, no-break space ...) is
+	// trimmed here: the token then starts behind what was trimmed on the left
+	pos += len(curr) - len(strings.TrimLeftFunc(curr, unicode.IsSpace))
 	curr = strings.ToLower(strings.TrimSpace(curr))
 	if len(curr) == 0 {
 		return nil
